@@ -247,6 +247,78 @@ func subStackScenario(depth int, c int) *explore.Scenario {
 	}}
 }
 
+// ---- (2b) the same message object travels through both metrics decorators ----------------------------------------
+//
+// A consumer republishes the very message it received (a pass-through handler does), or hands a message it just
+// published to a subscriber-side decorator: each decorator marks the message context as "observed" to stay
+// idempotent when applied twice, and the two marks must not be confused with each other.
+func forwardScenario() *explore.Scenario {
+	return &explore.Scenario{Name: "forward-same-object", C: -1, DataOnly: true, Body: func() {
+		n := 1 + vs.Choose(2, 0, "messages")
+		var script []*message.Message
+		for i := 0; i < n; i++ {
+			script = append(script, hx.Msg(fmt.Sprintf("m%d", i)))
+		}
+		innerSub := hx.NewScriptSub("inner", map[string][]*message.Message{"t": script})
+		innerPub := hx.NewScriptPub("inner")
+		pubFails := vs.Choose(2, 0, "publish outcome") == 1
+		innerPub.Outcome = func(int, string, []*message.Message) hx.PubOutcome {
+			if pubFails {
+				return hx.PubErr
+			}
+			return hx.PubOK
+		}
+		reg := prometheus.NewRegistry()
+		mb := metrics.NewPrometheusMetricsBuilder(reg, "ns", "sub")
+		twice := vs.Choose(2, 0, "decorators applied twice") == 1
+		var sub message.Subscriber = innerSub
+		var pub message.Publisher = innerPub
+		var err error
+		for i := 0; i < 1+map[bool]int{false: 0, true: 1}[twice]; i++ {
+			if sub, err = mb.DecorateSubscriber(sub); err != nil {
+				vs.Fail("setup", "%v", err)
+				return
+			}
+			if pub, err = mb.DecoratePublisher(pub); err != nil {
+				vs.Fail("setup", "%v", err)
+				return
+			}
+		}
+		ch, err := sub.Subscribe(context.Background(), "t")
+		if err != nil {
+			vs.Fail("subscribe-error", "%v", err)
+			return
+		}
+		published := 0
+		go func() {
+			for m := range ch {
+				pub.Publish("out", m) // the received object itself
+				published++
+				m.Ack()
+			}
+		}()
+		vs.Quiesce()
+		cfg := fmt.Sprintf("%d messages received through the metrics subscriber and republished as they are through the metrics publisher (decorators applied twice=%v, publish fails=%v)", n, twice, pubFails)
+		if published != n || len(innerPub.Snapshot()) != n {
+			vs.Fail("transparent", "%s: %d publish calls made, %d reached the inner publisher", cfg, published, len(innerPub.Snapshot()))
+		}
+		c := counts(reg, "success")["ns_sub_publish_time_seconds"]
+		wantOK, wantFail := n, 0
+		if pubFails {
+			wantOK, wantFail = 0, n
+		}
+		if c["true"] != wantOK || c["false"] != wantFail {
+			vs.Fail("metrics-publish-count", "%s: recorded success=true:%d false:%d", cfg, c["true"], c["false"])
+		}
+		r := counts(reg, "acked")["ns_sub_subscriber_messages_received_total"]
+		if r["acked"] != n || r["nacked"] != 0 {
+			vs.Fail("metrics-received-count", "%s: recorded acked:%d nacked:%d", cfg, r["acked"], r["nacked"])
+		}
+		vs.Note("%s", cfg)
+		sub.Close()
+	}}
+}
+
 // ---- (3) delay.Publisher --------------------------------------------------------------------------------------
 
 var delaySources = []string{"none", "metadata", "ctx-for-1h", "ctx-for-0", "ctx-for-past", "ctx-until-1h", "ctx-until-past", "ctx-zero-value", "ctx-until-zero-time"}
@@ -465,6 +537,7 @@ func handlerMetricsScenario(c int) *explore.Scenario {
 }
 
 func init() {
+	reg.AddW("C20", "forward-same-object", reg.Quick, 2, func(t reg.Tier) *explore.Scenario { return forwardScenario() })
 	add := func(tier reg.Tier, w int, mk func(t reg.Tier) *explore.Scenario) {
 		reg.AddW("C20", mk(reg.Quick).Name, tier, w, mk)
 	}
